@@ -107,6 +107,7 @@ type dynamicWalker struct {
 	walkChan chan *currentPath
 	err      error
 	closeCh  chan struct{}
+	finished bool
 }
 
 func newDynamicWalker() *dynamicWalker {
@@ -122,7 +123,11 @@ func (w *dynamicWalker) update(p *currentPath) error {
 		return errors.Wrap(w.err, "walker is closed")
 	default:
 	}
+	if w.finished {
+		return errors.New("stat received after the end of stats")
+	}
 	if p == nil {
+		w.finished = true
 		close(w.walkChan)
 		return nil
 	}
